@@ -1,7 +1,7 @@
 (* C02 - Each injected argument comes from its one declared source. *)
 From Coq Require Import List String Bool.
 Import ListNotations.
-From ClasticV Require Import Base.Py Base.FSet Gen.Tables Model.Chain Model.Exec
+From ClasticV Require Import Gen.ChainShape Base.Py Base.FSet Gen.Tables Model.Chain Model.Exec
      Proofs.ChainProofs Proofs.ExecProofs Proofs.RouteProofs Proofs.OnionProofs Proofs.ValueProofs Proofs.NestedProofs.
 Local Open Scope string_scope.
 Local Open Scope list_scope.
@@ -90,3 +90,19 @@ Example C02_example :
    Leave (FMw PhEp 0) (OVal false "C");
    Enter FRender [("context", VS "C")]; Leave FRender (OVal true "R")].
 Proof. eexists. split; [vm_compute; reflexivity|]. vm_compute. reflexivity. Qed.
+
+(* obligation on the source: the control-flow skeletons of sinter.inject (BoundRoute.execute is pinned in C08), regenerated from the source on every run.  The model is a
+   hand transcription of exactly these statements: any edit re-opens the correspondence question (the check then searches
+   for a failing input and reports what it finds) *)
+Theorem C02_inject_shape :
+  SK_INJECT =
+  ["__traceback_hide__ = True";
+   "fb = get_fb(f)";
+   "all_kwargs = fb.get_defaults_dict()";
+   "all_kwargs.update(injectables)";
+   "if fb.varkw";
+   "  return f(**all_kwargs)";
+   "kwargs = dict([(k, v) for k, v in all_kwargs.items() if k in fb.get_arg_names()])";
+   "return f(**kwargs)"].
+Proof. repeat split; reflexivity. Qed.
+Print Assumptions C02_inject_shape.
